@@ -3,6 +3,8 @@
 package main
 
 import (
+	"net"
+	"github.com/bokysan/socketace/v2/internal/client/upstream"
 	"os"
 	"io"
 	"bytes"
@@ -62,18 +64,42 @@ func (xtalkComp) Exec(op string) (string, string, string, bool) {
 	if k > 50 {
 		opened.Add(k)
 	}
+	// many connections: they are opened one after the other (each proves it exists end to end before the next is
+	// dialled), stay open, and then all move their data at the same time
+	pre := make([]net.Conn, k)
+	if k > 50 {
+		for i := range pre {
+			c, err := rig.Dial("echo")
+			if err != nil {
+				return "fail", fmt.Sprintf("connection %d: dial: %v", i, err), f[0], false
+			}
+			defer c.Close()
+			one := []byte{byte(i)}
+			if _, err := c.Write(one); err != nil {
+				return "fail", fmt.Sprintf("connection %d (opened while %d others are open): first byte: %v", i, i, err), f[0], false
+			}
+			if got, err := readFullDeadline(c, 1, 10*time.Second); err != nil || got[0] != one[0] {
+				return "fail", fmt.Sprintf("connection %d (opened while %d others are open): first byte not echoed: %v", i, i, err), f[0], false
+			}
+			pre[i] = c
+		}
+	}
 	for i := range jobs {
 		wg.Add(1)
 		go func(i int) {
 			defer wg.Done()
 			j := jobs[i]
-			c, err := rig.Dial("echo")
-			if err != nil {
-				errs[i] = "dial: " + err.Error()
-				return
+			c := pre[i]
+			if c == nil {
+				var err error
+				c, err = rig.Dial("echo")
+				if err != nil {
+					errs[i] = "dial: " + err.Error()
+					return
+				}
+				defer c.Close()
 			}
-			defer c.Close()
-			if k > 50 {
+			if false {
 				// prove the connection exists end to end, then wait until all k are open
 				one := []byte{byte(i)}
 				if _, err := c.Write(one); err != nil {
@@ -88,6 +114,9 @@ func (xtalkComp) Exec(op string) (string, string, string, bool) {
 				}
 				opened.Done()
 				opened.Wait()
+				if i == 0 && os.Getenv("VERIF_DEBUG") != "" {
+					fmt.Fprintf(os.Stderr, "DEBUG streams on the client session after all are open: %d\n", upstream.VerifNumStreams(&rig.cli.Upstream))
+				}
 			}
 			time.Sleep(j.pause)
 			data := payload(j.seed, j.n)
